@@ -94,6 +94,10 @@ func Verif_C04_InProcStream() {
 	mtd := []string{"R", "S", "C"}[zv.Choose("method", 3)]
 	nResp := zv.Param("responses", 1)
 	behaviour := zv.Choose("handler", 3) // 0 send all then return nil, 1 send all, wait for ctx, return ctx.Err(), 2 fail Aborted after sending
+	if zv.Bool("handler-sends-nothing") {
+		nResp = 0
+	}
+	headerFirst := zv.Bool("client-asks-for-headers-first")
 	hooks := &verifHooks{}
 	hooks.Stream = func(tag string, ss grpc.ServerStream) error {
 		if mtd != "R" {
@@ -115,7 +119,9 @@ func Verif_C04_InProcStream() {
 				return err
 			}
 		}
-		ss.SetTrailer(metadata.Pairs("t", "v"))
+		if n > 0 || behaviour == 0 {
+			ss.SetTrailer(metadata.Pairs("t", "v"))
+		}
 		switch behaviour {
 		case 1:
 			<-ss.Context().Done()
@@ -135,6 +141,9 @@ func Verif_C04_InProcStream() {
 	}
 	cs.SendMsg(&verifMsg{Count: 1}) // may fail once the context ended
 	cs.CloseSend()
+	if headerFirst {
+		cs.Header()
+	}
 	want := nResp
 	if mtd == "C" {
 		want = 1
